@@ -284,6 +284,20 @@ def check(run):
     run.clause('an accept is outstanding exactly while a handler slot is set: the hand-out in check_accept_queue is decided by the handler slots (shared with C06/C16)')
     import p06 as _p06
     _p06.accept_queue_rules(run)
+    run.clause('local_endpoint() reports the endpoint the socket actually holds: bind() stores the registry\'s answer (wildcard resolved, ephemeral port chosen) in both m_bound_to and the user-visible m_user_bound_to')
+    for cls_ in (T, 'sim::asio::ip::udp::socket'):
+        bf = [x for x in fx.fn(cls_ + '::bind', None) if 'error_code' in x.sig][0]
+        run.touch(bf)
+        B_ = 'sim::asio::socket_base'
+        rhs = {}
+        for a_ in q.field_accesses(bf):
+            nm_ = a_.field.split('::')[-1]
+            if a_.kind == 'assign' and nm_ in ('m_bound_to', 'm_user_bound_to'):
+                r_ = a_.site['args'][1] if a_.site['k'] == 'call' else a_.site.get('rhs')
+                rhs.setdefault(nm_, set()).add(q.render(bf, q.strip_casts(r_)))
+        run.check(bool(rhs.get('m_bound_to')) and rhs.get('m_bound_to') == rhs.get('m_user_bound_to'), 'R2r', 'user-view-is-actual-binding', bf.norm, bf.loc(),
+                  'bind() stores %s in m_user_bound_to but %s in m_bound_to: local_endpoint() then reports the requested (wildcard) address instead of the address the socket is bound to, and the peer\'s view of the connection no longer matches' % (sorted(rhs.get('m_user_bound_to', [])), sorted(rhs.get('m_bound_to', []))),
+                  'both set from the registry\'s answer')
     run.clause('re-opening an acceptor resets it as an acceptor (listen state, accept queue), not only as a socket')
     acceptor_reopen_rule(run)
     run.clause('a SYN-ACK completes only the connect it answers: the completion of m_connect_handler in incoming_packet is guarded by the packet\'s channel being the socket\'s current channel (a SYN-ACK for a cancelled connect must not complete a later connect to another acceptor)')
